@@ -546,6 +546,14 @@ class Session:
             self.p.kill()
 
 
+def dbg_info(res):
+    """(generation, write frontier, next root slot) of the recovered writer, when the harness could read them"""
+    try:
+        return {"gen": int(res["gen"]), "free": int(res["free"]), "nr": int(res["nr"])}
+    except (KeyError, ValueError):
+        return None
+
+
 def parse_result(line):
     """'R open=ok ho=.. fc=.. heads=.. recs=..|walk=.. [cont=..] size=..' -> dict"""
     d = {"raw": line}
@@ -768,6 +776,14 @@ def oracle(tr, n, res, ref_digest):
         return ("recovered state (heads record @%s, fact cache @%s) is neither the last completed commit nor the commit in progress (allowed: %s)"
                 % (res.get("ho"), res.get("fc"), [(c["root"] or {}).get("heads") for c in allowed])), None
     ci = tr.commits.index(got)
+    # the rest of the recovered root and what the writer will do next
+    root = got["root"]
+    if res.get("gen", "").isdigit() and int(res["gen"]) != root["gen"]:
+        return "recovered generation %s differs from generation %d of recovered commit #%d" % (res["gen"], root["gen"], ci + 1), ci
+    if res.get("free", "").lstrip("-").isdigit() and int(res["free"]) != root["free"]:
+        return "recovered write frontier %s differs from the frontier %d of recovered commit #%d" % (res["free"], root["free"], ci + 1), ci
+    if res.get("nr", "").isdigit() and int(res["nr"]) == got["slot"]:
+        return "the next commit would overwrite slot %d, which holds the recovered commit #%d" % (got["slot"], ci + 1), ci
     # the head set itself
     hrec = tr.records[got["nrec"] - 1]
     if hrec["payload"] is not None and res.get("heads") != fnv(hrec["payload"]):
@@ -970,7 +986,7 @@ def _run(ctx, binp, tmp):
                     if res.get("open", "").startswith("err"):
                         impl = None
                     elif res.get("open") == "ok":
-                        impl = (res.get("ho"), res.get("fc"), info)
+                        impl = (res.get("ho"), res.get("fc"), dbg_info(res))
                     else:
                         impl = "?"
                     open_cases.append((size, a, b, impl, (wi, n, spec), int(res.get("size", -1))))
@@ -985,7 +1001,7 @@ def _run(ctx, binp, tmp):
             if res.get("open", "").startswith("err"):
                 impl = None
             elif res.get("open") == "ok":
-                impl = (res.get("ho"), res.get("fc"), None)
+                impl = (res.get("ho"), res.get("fc"), dbg_info(res))
                 n_raw_ok += 1
             else:
                 impl = "?"
@@ -1041,14 +1057,14 @@ def _run(ctx, binp, tmp):
                 items.append("(%d, %s, %s, None, false)" % (size, cb(a), cb(b)))
             else:
                 ho, fc, info = impl
-                full = info is not None and info.get("root") is not None and info.get("slot") is not None
-                gen = info["root"]["gen"] - 1 if full else 0
-                free = info["append_off"] if full and info.get("append_off") is not None else 0
-                nr = info["slot"] if full else 0
-                items.append("(%d, %s, %s, Some (%d%%N, %s, %s, %d, %d), %s)" % (
+                full = info is not None
+                gen = info["gen"] if full else 0
+                free = info["free"] if full else 0
+                nr = info["nr"] if full else 0
+                items.append("(%d, %s, %s, Some (%d%%N, %s, %s, %s, %d), %s)" % (
                     size, cb(a), cb(b), gen,
                     coq_z(int(ho)) if ho and ho.isdigit() else "(-1)", coq_z(int(fc)) if fc and fc.isdigit() else "(-1)",
-                    free, nr, "true" if full else "false"))
+                    coq_z(free), nr, "true" if full else "false"))
         return ("Definition cases : list (Z * list N * list N * option (N * Z * Z * Z * Z) * bool) := %s.\n"
                 "Definition chk (c : Z * list N * list N * option (N * Z * Z * Z * Z) * bool) : bool :=\n"
                 "  let '(size, a, b, want, full) := c in\n"
